@@ -206,9 +206,9 @@ PROPS = {
     ),
     "C10": dict(
         level="exploration", monitors={"mon_c10": {"sources": ["mon_c10.c", "vf_req.c", "ref_pixel.c", "vf.c"]}},
-        runs=[dict(name="plain", monitor="mon_c10", flavour="plain", cases={"quick": 4704, "thorough": 35280}),
-              dict(name="general-only", monitor="mon_c10", flavour="plain", config="general-only", env=GENERAL_ONLY, cases={"quick": 4704, "thorough": 35280}),
-              dict(name="asan", monitor="mon_c10", flavour="asan", cases={"quick": 4704, "thorough": 11760})],
+        runs=[dict(name="plain", monitor="mon_c10", flavour="plain", cases={"quick": 5488, "thorough": 41160}),
+              dict(name="general-only", monitor="mon_c10", flavour="plain", config="general-only", env=GENERAL_ONLY, cases={"quick": 5488, "thorough": 41160}),
+              dict(name="asan", monitor="mon_c10", flavour="asan", cases={"quick": 5488, "thorough": 13720})],
         rule="case = (format, kind, chunk): for every format accepted as a source (and float formats) ALL 2^bpp pixel values for bpp <= 16 (16 chunks of 4096) and per-byte-lane sweeps + random words for 24/32 bpp, placed at x offsets 0..9; "
              "kinds: decode to a8r8g8b8 against the reference widening (bit replication; palettes for indexed formats; wide formats: 0->0, max->max, most significant bits), decode to rgba_float against v/(2^n-1), "
              "encode from a8r8g8b8 against truncation (indexed: ent[] with the 15-bit key), round trips F->a8r8g8b8->F and F->float->F, store footprint at bit level for 1..3-pixel stores, "
@@ -289,9 +289,9 @@ PROPS = {
     ),
     "C15": dict(
         level="fault_enumeration", monitors={"mon_alloc": {"sources": ["mon_alloc.c", "vf_alloc.c", "vf.c"], "link": ["-Wl,--wrap=malloc,--wrap=calloc,--wrap=realloc,--wrap=free"]}},
-        runs=[dict(name="asan", monitor="mon_alloc", flavour="asan", cases={"quick": 19, "thorough": 19 * 40}),
-              dict(name="plain", monitor="mon_alloc", flavour="plain", cases={"quick": 19 * 4, "thorough": 19 * 120})],
-        rule="19 scenarios (region union/subtract/intersect/inverse/in-place/copy/init_rects with validation/union_rect growth/16-bit, image and gradient constructors, setters that copy, filter creation, "
+        runs=[dict(name="asan", monitor="mon_alloc", flavour="asan", cases={"quick": 20 * 3, "thorough": 20 * 40}),
+              dict(name="plain", monitor="mon_alloc", flavour="plain", cases={"quick": 20 * 6, "thorough": 20 * 120})],
+        rule="20 scenarios (region union/subtract/intersect/inverse/in-place/copy/init_rects with validation (overlapping grids; many two-box partial regions merged pairwise)/union_rect growth/16-bit, image and gradient constructors, setters that copy, filter creation, "
              "composites through the general path with scanline buffers beyond the stack buffer, alpha-map destination and transformed sources, glyph cache insert + composite_glyphs(_no_mask), composite_trapezoids/triangles + add_*, "
              "fill_rectangles/fill_boxes, compute_composite_region); each is run once to count its N allocations (malloc/calloc/realloc wrapped at link time), then for EVERY k in 1..N with allocation k failing once and with k and all later ones failing; "
              "oracles: no crash / ASan report, failures reported (NULL / FALSE), a failed region operation leaves the broken region which later operations propagate and fini accepts, calls that report success give the failure-free result, "
@@ -299,7 +299,7 @@ PROPS = {
         floors={"any": {"injected_runs": 400, "failures_reported": 100, "labels:failed_site": 15}},
         exhaustive={"quick": True, "thorough": True},
         exhaustive_note="exhaustive over (scenario, k, once/persistent) for the listed scenarios; the thorough tier repeats them with 40..120 size variants",
-        assumptions=["allocation sites are those reached by the 19 scenarios (listed in the evidence labels)", "realloc failure leaves the old block valid, as the C library does"],
+        assumptions=["allocation sites are those reached by the 20 scenarios (listed in the evidence labels)", "realloc failure leaves the old block valid, as the C library does"],
     ),
     "C20": dict(
         level="exploration", monitors={"mon_life": {"sources": ["mon_life.c", "vf_alloc.c", "vf.c"], "link": ["-Wl,--wrap=malloc,--wrap=calloc,--wrap=realloc,--wrap=free"]}},
@@ -434,7 +434,7 @@ MANIFEST_TEXT["C14"] = dict(
 
 MANIFEST_TEXT["C15"] = dict(
     technique="fault injection by link-time wrapping of malloc/calloc/realloc/free with exhaustive enumeration of the failing allocation index per scenario, under ASan, with live-block accounting",
-    level_text="Fault enumeration: for each of 19 API scenarios every allocation index k is failed once and persistently; crash, leak (live-block accounting), broken-region propagation, reporting and write confinement are checked after every injected run.",
+    level_text="Fault enumeration: for each of 20 API scenarios every allocation index k is failed once and persistently; crash, leak (live-block accounting), broken-region propagation, reporting and write confinement are checked after every injected run.",
     level_note="trusted: the wrappers in harness/vf_alloc.c; sites not reached by the scenarios are not covered")
 
 MANIFEST_TEXT["C17"] = dict(
